@@ -26,6 +26,29 @@ PROBES = [((6, 10), 'build/packages/dep/src/dep_mod.gleam', 'a module of a direc
 DEP_FIRST = ('build/packages/dep/src/dep_mod.gleam', [((1, 30), 'build/packages/trans/src/trans_mod.gleam', 'a file under build/packages opened first is attributed to the enclosing project')])
 
 
+# a path dependency nested inside the project (not under build/packages), its file opened BEFORE the project's own: every file must
+# still be attributed to the innermost root, whatever the order in which the roots were discovered
+PATH_DEP = {
+    'gleam.toml': 'name = "app"\nversion = "0.1.0"\n\n[dependencies]\ncore = { path = "libs/core" }\n',
+    'src/app.gleam': 'import core\n\npub fn main() {\n  core.hello()\n}\n',
+    'libs/core/gleam.toml': 'name = "core"\nversion = "0.1.0"\n',
+    'libs/core/src/core.gleam': 'pub fn hello() { 1 }\n',
+}
+PATH_DEP_PROBES = [((3, 8), 'libs/core/src/core.gleam', 'a path dependency nested in the project, opened first: its files belong to the inner root')]
+# two projects in one session, each with its own copy of a dependency of the same name
+TWO_PROJECTS = {
+    'a/gleam.toml': 'name = "a"\nversion = "0.1.0"\n\n[dependencies]\nlib = "1.0"\n',
+    'a/src/a.gleam': 'import lib\n\npub fn main() {\n  lib.hello()\n}\n',
+    'a/build/packages/lib/gleam.toml': 'name = "lib"\nversion = "1.0.0"\n',
+    'a/build/packages/lib/src/lib.gleam': 'pub fn hello() { 1 }\n',
+    'b/gleam.toml': 'name = "b"\nversion = "0.1.0"\n\n[dependencies]\nlib = "1.0"\n',
+    'b/src/b.gleam': 'import lib\n\npub fn main() {\n  lib.hello()\n}\n',
+    'b/build/packages/lib/gleam.toml': 'name = "lib"\nversion = "1.0.0"\n',
+    'b/build/packages/lib/src/lib.gleam': 'pub fn hello() { 2 }\n',
+}
+TWO_PROJECTS_PROBES = [((3, 7), 'b/build/packages/lib/src/lib.gleam', 'the project opened second resolves its dependency to its OWN build/packages copy')]
+
+
 def native_layout(binary):
     out, alive = lsp_replay.workspace_scenario(binary, FILES, 'src/main.gleam', [p[0] for p in PROBES])
     problems = []
@@ -40,7 +63,19 @@ def native_layout(binary):
     for got, (pos, want, what) in zip(out2, DEP_FIRST[1]):
         if got != want:
             problems.append('%s: go-to-definition at %s of %s lands on %s, expected %s' % (what, pos, DEP_FIRST[0], got, want))
-    return problems, out + out2
+    out3, alive3 = lsp_replay.workspace_scenario(binary, PATH_DEP, 'src/app.gleam', [p[0] for p in PATH_DEP_PROBES], pre_open=['libs/core/src/core.gleam'])
+    if not alive3:
+        problems.append('the server died on the project with a nested path dependency')
+    for got, (pos, want, what) in zip(out3, PATH_DEP_PROBES):
+        if got != want:
+            problems.append('%s: go-to-definition at %s of src/app.gleam lands on %s, expected %s' % (what, pos, got, want))
+    out4, alive4 = lsp_replay.workspace_scenario(binary, TWO_PROJECTS, 'b/src/b.gleam', [p[0] for p in TWO_PROJECTS_PROBES], pre_open=['a/src/a.gleam'])
+    if not alive4:
+        problems.append('the server died with two projects open')
+    for got, (pos, want, what) in zip(out4, TWO_PROJECTS_PROBES):
+        if got != want:
+            problems.append('%s: go-to-definition at %s of b/src/b.gleam lands on %s, expected %s' % (what, pos, got, want))
+    return problems, out + out2 + out3 + out4
 
 
 def native_names(oracle, samples):
@@ -87,9 +122,9 @@ def main(tier, seed):
             chk.inconclusive.append('translator validation FAILED: ' + b)
         chk.log('module_name: %d/%d sampled paths agree with the native ide::module_name' % (okc, len(samples)))
         # (a) lower_vfs
-        LB = [(1, 2, 1, 1), (1, 2, 2, 1), (1, 2, 3, 1), (2, 2, 3, 1), (1, 1, 2, 1), (1, 2, 3, 2)]
+        LB = [(1, 2, 1, 1), (1, 2, 2, 1), (1, 2, 3, 1), (2, 1, 2, 1), (2, 1, 3, 1), (2, 2, 3, 1), (1, 1, 2, 1), (1, 2, 3, 2), (2, 1, 3, 2)]      # the root set keeps insertion order: both orders of a short and a long root
         if tier == 'thorough':
-            LB += [(2, 3, 3, 1), (1, 3, 3, 1), (2, 3, 4, 1), (2, 2, 3, 2)]
+            LB += [(2, 3, 3, 1), (3, 2, 3, 1), (1, 3, 3, 1), (3, 1, 3, 1), (2, 3, 4, 1), (3, 2, 4, 1), (2, 2, 3, 2)]
         for args in LB:
             res, complete = explore.explore(projk.lower_factory, args, jobs=jobs)
             chk.add_run('lower_vfs: package roots of %d and %d components, %d file(s) of %d components, every component symbolic over {a,b,c}' % (args[0], args[1], args[3], args[2]), res, complete,
@@ -119,10 +154,13 @@ def main(tier, seed):
                 else:
                     chk.inconclusive.append('%s kernel: %s -- but the on-disk workspace resolves as the layout rules say (%s)' % (site, v['why'][0][:300], out))
         elif problems:
-            chk.inconclusive.append('translator validation FAILED: the kernels find no problem, the real server shows: %s' % problems[0])
+            # the on-disk scenarios are direct instances of the property (layout on disk, go-to-definition through the real server, the target the layout
+            # rules prescribe): a mismatch is a natively reproduced violation also when it lies in the file-system part no kernel reaches (assemble_graph)
+            for p_ in problems[:3]:
+                chk.violation('layout:on-disk', 'fixture', 'real server on an on-disk workspace: %s (no kernel reaches this: graph assembly / file loading are file-system I/O)' % p_, {'kind': 'on-disk', 'problem': p_}, confirmed=True)
         else:
-            chk.validated += len(PROBES)
-            chk.log('layout: %d go-to-definition probes on an on-disk workspace with a direct and a transitive dependency agree with the kernels' % len(PROBES))
+            chk.validated += len(PROBES) + len(DEP_FIRST[1]) + len(PATH_DEP_PROBES) + len(TWO_PROJECTS_PROBES)
+            chk.log('layout: %d go-to-definition probes on four on-disk scenarios (direct / transitive dependency, dependency file opened first, nested path dependency opened first, two projects with a same-named dependency) agree with the layout rules' % (len(PROBES) + len(DEP_FIRST[1]) + len(PATH_DEP_PROBES) + len(TWO_PROJECTS_PROBES)))
     finally:
         oracle.close(); projk.W.cleanup()
     chk.assumptions += [
@@ -132,7 +170,7 @@ def main(tier, seed):
         '(d) find_gleam_project_parent on 9 path shapes (module in src / test / a sub-directory / elsewhere, manifests, nested projects, files of a dependency under build/packages) for EVERY set of ancestor directories that hold a gleam.toml (Path::is_file answered from symbolic bits), compared with a two-stage reference of the layout rules',
         'std::path is modelled over component lists (strip_prefix, extension, set_extension, components, collect, to_str, starts_with); file names are valid UTF-8 without separators; '
         'the model is compared with the native ide::module_name on the sampled paths of every run',
-        'reading gleam.toml (assemble_graph), walking directories (load_package_files) and the build/packages locality flag are file-system I/O and outside the claim; they are exercised only by the on-disk replay',
+        'reading gleam.toml (assemble_graph), walking directories (load_package_files) and the build/packages locality flag are file-system I/O and outside the claim; they are exercised only by the on-disk scenarios (real server: direct / transitive dependency, a dependency file opened first, a nested path dependency opened before its project, two projects with their own copy of a same-named dependency); a mismatch there is reported as a natively reproduced violation',
         'module_name skips the first component below the root whatever its name: that only src/ and test/ are loaded is a property of load_package_files (I/O), not claimed']
     chk.trusted += ['rustc MIR', 'mirsym interpreter + std::path / HashMap / IndexSet / la_arena models', 'z3']
     chk.level = 'model_checking'
